@@ -15,16 +15,27 @@ inline bool myisdigit(char c)
 inline bool myisnumber(const String& s, char dec)
 {
 	const char* p = s.data();
-	int n = s.length();
-	if (!myisdigit(p[0]) && p[0] != '-' && p[0] != dec)
-		return false;
-	for (int i = 1; i < n; i++)
+	int i = 0, nd = 0;
+	if (p[i] == '-')
+		i++;
+	while (myisdigit(p[i])) { i++; nd++; }
+	if (p[i] == dec)
 	{
-		char c = p[i];
-		if (!myisdigit(c) && c != '-' && c != '+' && c != dec && c != 'e' && c != 'E')
-			return false;
+		i++;
+		while (myisdigit(p[i])) { i++; nd++; }
 	}
-	return true;
+	if (nd == 0)
+		return false;
+	if (p[i] == 'e' || p[i] == 'E')
+	{
+		i++;
+		if (p[i] == '+' || p[i] == '-')
+			i++;
+		if (!myisdigit(p[i]))
+			return false;
+		while (myisdigit(p[i])) i++;
+	}
+	return i == s.length();
 }
 
 void TabularDataFile::init()
